@@ -213,3 +213,37 @@ class Sampling:
         # user variables only (locals with a debug name), not compiler temporaries
         # (not the variables of helpers spliced in by lib.inline: their debug names carry an `@helper` suffix)
         return [l for l in sorted(b.names) if "@" not in b.names[l] and b.local_ty(l) in ("u128", "std::option::Option<u32>") and self.classify_local(l) == cls]
+
+
+def slowest_duration(prog, b, op):
+    """Is the operand the longest timed section among this round's raw samples - `max_by_key(duration).unwrap().duration()`
+    or `map(duration).max().unwrap()`, the key / mapping being RawSample::duration itself or a closure that calls nothing
+    else? Returns (ok, description of what was found)."""
+    from lib.facts import nophi
+    DUR = "stats::sample::RawSample::duration"
+    srcs = b.prov.op_src(op)
+    calls = {z.a for z in srcs if z.kind == "call"}
+    sites = {z.b for z in srcs if z.kind == "call"}
+    desc = sorted(calls)
+    if not nophi(srcs) or any(n.rsplit("::", 1)[-1] in ("min", "min_by_key", "min_by", "precision", "last", "first", "nth") for n in calls):
+        return False, desc
+
+    def is_duration_fn(c, arg):
+        if arg.get("k") == "const":
+            return norm(arg["c"].get("fn") or "") == DUR
+        if arg.get("k") in ("copy", "move") and not arg["p"]["proj"]:
+            for d in b.prov.defs.get(arg["p"]["l"], []):
+                if d[0] == "S" and d[3]["rv"]["k"] == "agg" and d[3]["rv"].get("ak") == "closure":
+                    cb = prog.bodies.get((b.crate, norm(d[3]["rv"]["def"]), -1))
+                    return cb is not None and [q.callee for q in cb.live_calls()] == [DUR]
+        return False
+    for c in b.live_calls():
+        if c.bb not in sites:
+            continue
+        last = c.callee.rsplit("::", 1)[-1]
+        if last == "max_by_key" and "Iterator" in c.callee and len(c.args) == 2:
+            return (DUR in calls and is_duration_fn(c, c.args[1])), desc
+        if last == "max" and "Iterator" in c.callee and len(c.args) == 1:
+            maps = [m for m in b.live_calls() if m.bb in sites and m.callee.rsplit("::", 1)[-1] == "map" and "Iterator" in m.callee and len(m.args) == 2]
+            return (len(maps) == 1 and is_duration_fn(maps[0], maps[0].args[1])), desc
+    return False, desc
